@@ -159,7 +159,9 @@ def configure_warm_start(config: dict[str, Any]) -> None:
             raise SystemExit(1) from err
         tvar = nc.variables["time"]
         # Use last record in restart file
-        warm_start_time = np.datetime64(num2date(tvar[-1], tvar.units))
+        # (written in the calendar of numpy, whether the file says so or not)
+        calendar = getattr(tvar, "calendar", "proleptic_gregorian")
+        warm_start_time = np.datetime64(num2date(tvar[-1], tvar.units, calendar))
         warm_start_time = warm_start_time.astype("M8[s]")
         nc.close()
         config["time"]["start"] = warm_start_time
